@@ -6,7 +6,7 @@
 (* TraceStorage22.  The module also checks, on every enumerated sequence, a model-level sanity   *)
 (* theorem: the code's concatenated key only ever LOSES subscriptions relative to the injective *)
 (* reference key (never invents one), and the reference key is injective.                       *)
-EXTENDS Storage, Json, IOUtils, SequencesExt, FiniteSetsExt
+EXTENDS StorageKV, Json, IOUtils, SequencesExt, FiniteSetsExt
 
 Alpha   == IOEnv.VERIF_ALPHA
 Depth   == atoi(IOEnv.VERIF_DEPTH)
